@@ -27,9 +27,18 @@ fn elements_of(words: &[u64]) -> (Vec<BigUint>, usize) {
     let mut rejected = 0usize;
     while pos + 3 <= words.len() {
         // replay exactly the words of one accepted draw (possibly preceded by rejected triples)
-        let mut r = ScriptRng::new(words[pos..].to_vec(), 0);
-        let e = Fp::random(&mut r);
-        let used = r.words.len();
+        // (a bounded window is enough unless a draw was rejected more than 20 times in a row; then widen)
+        let mut win = 64usize;
+        let (e, used) = loop {
+            let end = (pos + win).min(words.len());
+            let mut r = ScriptRng::new(words[pos..end].to_vec(), 0);
+            let e = Fp::random(&mut r);
+            let used = r.words.len();
+            if pos + used <= end || end == words.len() {
+                break (e, used);
+            }
+            win *= 8;
+        };
         if pos + used > words.len() {
             break; // ran into the tail: not part of the recorded stream
         }
@@ -101,6 +110,73 @@ struct Dealt {
     via_gen: bool,
 }
 
+/// Thresholds around 2^16 (and one around 2^17): t+1 shares cannot be interpolated with big integers in
+/// reasonable time, so the degree is tested from below instead. Twelve dealt points of a polynomial of degree
+/// t-1 >= 11 interpolate to degree exactly 11 (a lower degree has probability 2^-128); a dealer whose
+/// polynomial has any degree below 11 - constant, linear, (t-1) mod 2^16 for t just above 2^16 - shows at
+/// once. The dealer must also have consumed at least 128 bits of the stream per coefficient, and the value at
+/// x = 1 must be the secret plus the sum of the elements the stream yielded (order-free, so no assumption on
+/// which coefficient gets which draw).
+fn huge_threshold(ctx: &mut Ctx, p: &BigUint) -> Result<(), Violation> {
+    let t = *ctx.ch.pick(&[65_535usize, 65_536, 65_537, 65_538, 65_540, 65_546, 131_073]);
+    let k = 1 + ctx.ch.index(2);
+    ctx.stats.probe("threshold_around_2_16");
+    let secret_vals: Vec<BigUint> = (0..k).map(|_| BigUint::from_bytes_le(&ctx.ch.bytes(16))).collect();
+    let mut secret = Vec::new();
+    for v in &secret_vals {
+        secret.extend_from_slice(&shamir_big::to_le24(v));
+    }
+    let tail = ctx.ch.draw(1 << 32);
+    ev!(ctx, "dealing t={} k={} (degree tested from below)", t, k);
+    let mut rng = ScriptRng::new(vec![], tail);
+    let mut evaluator = Sharks(t as u32).dealer_rng(&secret, &mut rng).map_err(|e| Violation::new("c06.refuse", "refused_valid", format!("dealer refused a valid secret at t={}: {}", t, e)))?;
+    let words = rng.words.clone();
+    if words.len() < 2 * k * (t - 1) {
+        return Err(Violation::new("c06.coeff_source", "draw_count", format!("dealing {} polynomials of threshold {} consumed {} 64-bit words of the supplied random source: fewer than 128 bits per non-constant coefficient", k, t, words.len())));
+    }
+    let n = 12usize;
+    let mut pts: Vec<(BigUint, Vec<BigUint>)> = Vec::new();
+    for i in 0..n {
+        let sh = if i % 3 == 2 { evaluator.gen(&mut rng) } else { evaluator.next().expect("iterator is endless") };
+        let b = Vec::from(&sh);
+        let (x, ys) = layout::parse_s(&b).ok_or_else(|| Violation::new("c06.eval", "layout", "dealt share does not follow the 24-byte layout"))?;
+        if ys.len() != k {
+            return Err(Violation::new("c06.eval", "y_count", format!("dealt share has {} y-values for a secret of {} elements", ys.len(), k)));
+        }
+        if x.is_zero() {
+            return Err(Violation::new("c06.x_zero", "gen_x_zero", "a dealt share has x = 0"));
+        }
+        pts.push((x, ys));
+    }
+    for j in 0..k {
+        let pj: Vec<(BigUint, BigUint)> = pts.iter().map(|(x, ys)| (x.clone(), ys[j].clone())).collect();
+        let co = shamir_big::interpolate(&pj, p);
+        let d = shamir_big::degree(&co).unwrap_or(0);
+        if d < n - 1 {
+            return Err(Violation::new("c06.eval", "degree_too_low", format!("{} shares dealt at threshold {} lie on a polynomial of degree {}: the sharing polynomial {} does not have degree t-1", n, t, d, j)));
+        }
+    }
+    let (elems, _) = elements_of(&words);
+    if elems.len() >= k * (t - 1) {
+        // the first share dealt is the one at x = 1
+        let mut want = BigUint::zero();
+        for v in secret_vals.iter().chain(elems[..k * (t - 1)].iter()) {
+            want = (want + v) % p;
+        }
+        let mut have = BigUint::zero();
+        for y in &pts[0].1 {
+            have = (have + y) % p;
+        }
+        if pts[0].0 == BigUint::from(1u32) && want == have {
+            ctx.stats.probe("huge_threshold_value_at_1_matches_stream");
+        } else {
+            ctx.stats.probe("huge_threshold_value_at_1_not_comparable");
+        }
+    }
+    ctx.stats.nontrivial = false;
+    Ok(())
+}
+
 impl Property for C06 {
     fn id(&self) -> &'static str {
         "C06"
@@ -116,6 +192,9 @@ impl Property for C06 {
     }
     fn run(&self, ctx: &mut Ctx) -> Result<(), Violation> {
         let p = shamir_big::p();
+        if ctx.ch.chance(1, 50) {
+            return huge_threshold(ctx, &p);
+        }
         let ts: Vec<u32> = if ctx.thorough { vec![1, 2, 2, 3, 3, 4, 5, 8, 13, 32, 64, 65, 128, 600] } else { vec![1, 2, 2, 3, 3, 4, 5, 8, 13, 32, 64] };
         let mut t = *ctx.ch.pick(&ts) as usize;
         if !ctx.thorough && ctx.ch.chance(1, 80) {
